@@ -183,6 +183,7 @@ type refOutcome struct {
 	lib      verdict
 	mathKnow bool // big-integer verdict available (RSA only)
 	math     bool
+	mathWhy  string // which step of the by-hand verification refused
 	rk       *refRSAKey
 	sigBytes []byte
 	sigErr   error
@@ -210,15 +211,18 @@ func refVerify(k *dns.DNSKEY, sig *dns.RRSIG, rrs []dns.RR) refOutcome {
 				if rk.N.BitLen() <= bigintBudgetBits && rk.E.BitLen() <= bigintBudgetBits {
 					tag, tagPanic := libKeyTag(k)
 					if !tagPanic {
-						if !refBinding(k, sig, rrs, tag) || o.sigErr != nil {
-							o.mathKnow, o.math = true, false
+						if !refBinding(k, sig, rrs, tag) {
+							o.mathKnow, o.math, o.mathWhy = true, false, "the RRSIG is not bound to this key and RRset (RFC 4034 §3.1 / RFC 4035 §5.3.1, names compared as ASCII-case-insensitive octets)"
+						} else if o.sigErr != nil {
+							o.mathKnow, o.math, o.mathWhy = true, false, "the signature field is not base64"
 						} else if data, err := refSignedData(sig, rrs); err == nil {
 							h, prefix, _ := rsaAlgHash(sig.Algorithm)
 							o.mathKnow = true
 							o.math = refPKCS1v15(rk.N, rk.E, prefix, hashBytes(h, data), o.sigBytes)
+							o.mathWhy = "s^e mod n is not the EMSA-PKCS1-v1_5 encoding of the digest of the library's signed data"
 						} else if err != errRefUnavailable {
 							// the library cannot form the signed data: nothing to be valid over
-							o.mathKnow, o.math = true, false
+							o.mathKnow, o.math, o.mathWhy = true, false, "the library cannot build the signed data: "+err.Error()
 						}
 					}
 				}
@@ -337,7 +341,7 @@ func judgeVerify(st *stats, c *jCase) {
 		// sdns must never accept what plain arithmetic says is invalid
 		if S == vAccept && ref.mathKnow && !ref.math {
 			st.violation(fmt.Sprintf("more-permissive/%s/%s/%s", p.name, fam, c.Mut),
-				fmt.Sprintf("%s accepted an RSA signature that is not valid by big-integer PKCS#1 v1.5 verification over the library's signed data (%s)", p.name, c.Class), c)
+				fmt.Sprintf("%s accepted an RSA signature the by-hand reference refuses: %s (input class %s)", p.name, ref.mathWhy, c.Class), c)
 			continue
 		}
 		cls := ""
@@ -425,10 +429,10 @@ func judgeSignedData(st *stats, c *jCase, sig *dns.RRSIG, rrs []dns.RR) {
 		if len(rrs) > 1 {
 			st.count("signed_data_equal/multi-rr", 1)
 		}
-		st.distIn("signed_data_types", dns.TypeToString[rrs[0].Header().Rrtype])
+		st.distIn("signed_data_types", dns.Type(rrs[0].Header().Rrtype).String())
 		st.dist(fmt.Sprintf("signed/%d/%d/%v/%d", rrs[0].Header().Rrtype, len(rrs), wild, len(got)))
 	default:
-		st.violation("signed-data/mismatch/"+dns.TypeToString[rrs[0].Header().Rrtype],
+		st.violation("signed-data/mismatch/"+dns.Type(rrs[0].Header().Rrtype).String(),
 			fmt.Sprintf("rrsigSignedData differs from the bytes the library signer signs (%d vs %d octets, first difference at %d)", len(got), len(want), firstDiff(got, want)), c)
 	}
 }
